@@ -184,6 +184,17 @@ static void dtor_keep_alloc(int self_slot) {
   }
 }
 
+/* dtortry=1: every destructor raises and handles an exception of its own (a destructor that closes something, logs through a
+** call that can fail, ...): the handler must run wherever the destructor is run from - an explicit delete, a collection, the
+** teardown of a worker thread's or the main thread's collector */
+static int dtor_try;
+static void dtor_trycatch(int s) {
+  if (!dtor_try) return;
+  volatile int handled = 0;
+  try { throw(ValueError, "raised inside the destructor of #%i", $I(s)); } catch (e in ValueError) { handled = 1; }
+  if (!handled) lfail("a try / throw / catch inside the destructor of #%d did not reach its handler", s);
+}
+
 static void Cell_Del(var self) {
   struct Cell* c = self;
   int s = slot_of(self);
@@ -193,6 +204,7 @@ static void Cell_Del(var self) {
   if (S[s].fin > 1) { lfail("object #%d finalised twice", s); return; }
   if (S[s].kind == K_NONE) { lfail("destructor on free slot #%d", s); return; }
   if (c->canary != CANARY) lfail("object #%d corrupted before finalisation", s);
+  dtor_trycatch(s);
   dtor_temporaries(s);
   dtor_reuse_alloc(s);
   dtor_keep_alloc(s);
@@ -988,6 +1000,7 @@ int main(int argc, char** argv) {
   dtor_reuse = (int)vf_param_i("reuse", 0);
   dtor_keep = (int)vf_param_i("keep", 0);
   leafy = (int)vf_param_i("leafy", 0);
+  dtor_try = (int)vf_param_i("dtortry", 0);
   dtor_temps = (int)vf_param_i("temps", 0); if (dtor_temps > 4) dtor_temps = 4;
 
   size_t need = 8L * MODW * (20 + NSPARE + 4) + 8L * MODW + 4096;
